@@ -116,12 +116,12 @@ theorem isotope_density_is_scaled {α : Type} [Field α] [Transc α] (rho mi me 
     isoDensityVal rho mi me = rho * mi / me := isotope_density_ratio rho mi me
 
 /-- … and it is unknown (`None`), not an error, when the element's density is unknown -/
-theorem isotope_density_unknown {α : Type} [Mul α] [Div α] (mi me : Option (Option α)) :
+theorem isotope_density_unknown {α : Type} [Mul α] [Div α] [OfNat α 0] [BEq α] (mi me : Option (Option α)) :
     isoDensity (some none) mi me = some none := rfl
 
 /-- number density and interatomic distance are unknown when the density is -/
-theorem derived_unknown {α : Type} (f : α → α → α) (m : Option (Option α)) :
-    elDerived f (some none) m = some none := rfl
+theorem derived_unknown {α : Type} (bad : α → α → Bool) (f : α → α → α) (m : Option (Option α)) :
+    elDerived bad f (some none) m = some none := rfl
 
 /-! the three notations, read as documented (concrete instances; the general round trips are
     in part 4) -/
